@@ -50,6 +50,8 @@ pub enum Slice {
     Iter,
     /// clone / clone_from / eq between two maps
     Clone,
+    /// calls with an injected, caught panic (Hash inside carry, retain / replace_entry_with closures)
+    Fault,
 }
 impl Slice {
     pub fn parse(s: &str) -> Option<Slice> {
@@ -60,6 +62,7 @@ impl Slice {
             "entry" => Slice::Entry,
             "iter" => Slice::Iter,
             "clone" => Slice::Clone,
+            "fault" => Slice::Fault,
             _ => return None,
         })
     }
@@ -323,6 +326,37 @@ impl Gen {
                     5 => (0, Op::GetMut { k: self.some_key(w, 0), add: 1 }),
                     6 => (0, Op::Entry { via: (d % 4) as u8, k: self.some_key(w, 0), steps: vec![Step::OrInsert(0, 5, 1)] }),
                     _ => (0, Op::Get { k: self.some_key(w, 0), variant: (d % 3) as u8 }),
+                };
+            }
+            Slice::Fault => {
+                // keep the map mid-resize most of the time: push to the next growth when whole, linger
+                // when split; fall back to a small map when it got large
+                if !split && d < 60 && len < 2 * self.target + 40 {
+                    return (0, Op::Insert { k: self.fresh(), v: self.rng.below(1000) });
+                }
+                if !split && len >= 2 * self.target + 40 && d < 80 {
+                    return (0, Op::Retain { p: Pred { set: None, modulus: 5, rem: 0, neg: false, add: 0 } });
+                }
+                return match self.rng.below(20) {
+                    0 | 1 | 2 => (0, Op::FInsert { k: self.fresh(), v: 5, fuse: self.rng.below(11) as usize }),
+                    3 | 4 => (0, Op::FInsert { k: self.some_key(w, 0), v: 6, fuse: self.rng.below(11) as usize }),
+                    5 | 6 | 7 => {
+                        let p = self.pred(w, 0);
+                        (0, Op::FRetain { p, fuse: self.rng.below(len as u64 + 2) as usize })
+                    }
+                    8 | 9 => (0, Op::FReplace { k: self.some_key(w, 0) }),
+                    10 => (0, Op::Remove { k: self.some_key(w, 0), variant: 0 }),
+                    11 => (0, Op::Insert { k: self.some_key(w, 0), v: 2 }),
+                    12 => (0, Op::Get { k: self.some_key(w, 0), variant: 0 }),
+                    13 => {
+                        let n = self.boundary(w, 0);
+                        (0, Op::Reserve { n: if n > 4096 { n % 4096 } else { n } })
+                    }
+                    14 => (0, Op::ShrinkToFit),
+                    15 => (0, Op::Iter { variant: 0 }),
+                    16 => (0, Op::Retain { p: self.pred(w, 0) }),
+                    17 => (0, Op::Entry { via: 0, k: self.some_key(w, 0), steps: vec![Step::OccReplaceWith(true, 1)] }),
+                    _ => (0, Op::Insert { k: self.fresh(), v: 1 }),
                 };
             }
             Slice::Cap => {
